@@ -368,11 +368,20 @@ class Run:
         e = dict(os.environ)
         e.update(env or {})
         t0 = time.time()
-        try:
-            p = subprocess.run(cmd, cwd=work, env=e, capture_output=True, text=True, timeout=timeout)
-        except subprocess.TimeoutExpired:
-            subprocess.run(["pkill", "-f", os.path.join(work, "meta")], capture_output=True)
-            raise MachineryError("TLC timed out after %ss on %s" % (timeout, name))
+        for attempt in range(3):
+            try:
+                p = subprocess.run(cmd, cwd=work, env=e, capture_output=True, text=True, timeout=timeout)
+            except subprocess.TimeoutExpired:
+                subprocess.run(["pkill", "-f", os.path.join(work, "meta")], capture_output=True)
+                raise MachineryError("TLC timed out after %ss on %s" % (timeout, name))
+            out = p.stdout + p.stderr
+            # the JVM could not get its memory / was killed (a loaded machine): nothing was decided -- try again
+            starved = p.returncode in (-9, 137, 134) or "OutOfMemoryError" in out or "insufficient memory" in out \
+                or "Could not reserve enough space" in out or "Cannot allocate memory" in out or "unable to create native thread" in out
+            if not starved or attempt == 2:
+                break
+            shutil.rmtree(os.path.join(work, "meta"), ignore_errors=True)
+            time.sleep(20 * (attempt + 1))
         res = TLCResult(p.stdout + p.stderr, p.returncode, time.time() - t0)
         res.work = work
         if count:
